@@ -1565,3 +1565,73 @@ B("c04-benign-prefix-eq-empty", "C04", "scope.go",
 	}""", """	if s.prefix == "" {
 		return name
 	}""")
+
+# ---------------------------------------------------------------- C11 snapshots
+M("c11-tags-from-wrong-scope", "C11", "scope.go",
+  "		for k, v := range ss.tags {\n			tags[k] = v\n		}", "		for k, v := range s.tags {\n			tags[k] = v\n		}", expect="O1 snapshot-entries")
+M("c11-share-live-tags", "C11", "scope.go",
+  """		tags := make(map[string]string, len(s.tags))
+		for k, v := range ss.tags {
+			tags[k] = v
+		}
+""", """		tags := ss.tags
+""", expect="O1 snapshot-entries")
+M("c11-name-from-receiver", "C11", "scope.go",
+  """		for key, g := range ss.gauges {
+			name := ss.fullyQualifiedName(key)""", """		for key, g := range ss.gauges {
+			name := s.fullyQualifiedName(key)""", expect="O1 snapshot-entries")
+M("c11-skip-timers", "C11", "scope.go",
+  """		ss.tm.RLock()
+		for key, t := range ss.timers {
+			name := ss.fullyQualifiedName(key)
+			id := KeyForPrefixedStringMap(name, tags)
+			snap.timers[id] = &timerSnapshot{
+				name:   name,
+				tags:   tags,
+				values: t.snapshot(),
+			}
+		}
+		ss.tm.RUnlock()
+""", "", expect="O1 snapshot-entries")
+M("c11-live-timer-slice", "C11", "stats.go",
+  """	snap := make([]time.Duration, len(t.unreported.values))
+	copy(snap, t.unreported.values)
+	t.unreported.RUnlock()
+	return snap""", """	snap := t.unreported.values
+	t.unreported.RUnlock()
+	return snap""", expect="O2 reads")
+M("c11-hist-keyed-by-lower", "C11", "stats.go",
+  "		vals[h.buckets[i].valueUpperBound] = h.samples[i].counter.snapshot()", "		vals[valueLowerBound(h.buckets, i)] = h.samples[i].counter.snapshot()", expect="O2 reads")
+M("c11-hist-shifted-index", "C11", "stats.go",
+  "		durations[h.buckets[i].durationUpperBound] = h.samples[i].counter.snapshot()", "		durations[h.buckets[i].durationUpperBound] = h.samples[len(h.samples)-1-i].counter.snapshot()", expect="O2 reads")
+M("c11-counter-snapshot-consumes", "C11", "stats.go",
+  "	return atomic.LoadInt64(&c.curr) - atomic.LoadInt64(&c.prev)", "	return c.value()", expect="O2 reads")
+M("c11-snapshot-no-lock", "C11", "scope.go",
+  """		ss.cm.RLock()
+		for key, c := range ss.counters {
+			name := ss.fullyQualifiedName(key)
+			id := KeyForPrefixedStringMap(name, tags)
+			snap.counters[id] = &counterSnapshot{
+				name:  name,
+				tags:  tags,
+				value: c.snapshot(),
+			}
+		}
+		ss.cm.RUnlock()""", """		for key, c := range ss.counters {
+			name := ss.fullyQualifiedName(key)
+			id := KeyForPrefixedStringMap(name, tags)
+			snap.counters[id] = &counterSnapshot{
+				name:  name,
+				tags:  tags,
+				value: c.snapshot(),
+			}
+		}""", expect="O3 field-discipline")
+M("c09-closure-unlock-without-lock", "C09", "scope.go",
+  """		ss.cm.RLock()
+		for key, c := range ss.counters {""", """		for key, c := range ss.counters {""", expect="O3 lock-pairing")
+M("c11-testscope-pruned", "C11", "scope_registry.go",
+  "		if !s.closed.Load() || s.testScope {", "		if !s.closed.Load() {", expect="O4 test-scope-exempt")
+M("c11-entry-key-without-tags", "C11", "scope.go",
+  """			id := KeyForPrefixedStringMap(name, tags)
+			snap.counters[id] = &counterSnapshot{""", """			id := KeyForPrefixedStringMap(name, nil)
+			snap.counters[id] = &counterSnapshot{""", expect="O1 snapshot-entries")
